@@ -40,7 +40,34 @@ def _alarm(signum, frame):
     raise Timeout()
 
 
+def _install_fast_bits():
+    """natively, bits(B, p, n) of a field inside B is computed from the bytes that hold it (the defining expression
+    converts the WHOLE buffer to an integer first: minutes on a 40 MB stream).  Checked against the definition on random
+    inputs every time the harness starts."""
+    slow = oracles.bits
+    if getattr(slow, '_fast', False):
+        return
+
+    def bits(B, p, n):
+        if n <= 0 or p < 0 or p + n > 8 * len(B):
+            return slow(B, p, n)
+        lo, hi = p // 8, (p + n + 7) // 8
+        return (int.from_bytes(B[lo:hi], 'big') >> (8 * hi - p - n)) & ((1 << n) - 1)
+    bits._fast = True
+    rr = random.Random(12345)
+    for _ in range(300):
+        B = bytes(rr.getrandbits(8) for _ in range(rr.randint(0, 12)))
+        p_, n_ = rr.randint(-2, 100), rr.randint(-1, 70)
+        try:
+            want = slow(B, p_, n_)
+        except Exception:
+            continue
+        assert bits(B, p_, n_) == want, ('fast bits disagrees with its definition', B, p_, n_)
+    oracles.bits = bits
+
+
 def spec_env():
+    _install_fast_bits()
     env = {}
     for mod in (prims, oracles):
         for k, v in vars(mod).items():
@@ -346,15 +373,26 @@ def replay(path):
 
 
 def main(argv):
+    # the functions under test may print (progress display): only the final JSON line goes to the real stdout
+    real_stdout = sys.stdout
+    sys.stdout = open(os.devnull, 'w')
+    try:
+        return _main(argv, real_stdout)
+    finally:
+        sys.stdout = real_stdout
+
+
+def _main(argv, real_stdout):
     if argv[0] == 'search':
         modname, target = argv[1], argv[2]
         opts = dict(zip(argv[3::2], argv[4::2]))
         out = search(modname, target, opts.get('--variant', ''), int(opts.get('--seed', '0')),
                      int(opts.get('--budget', '20000')), opts.get('--tier', 'quick'), opts.get('--prop'),
                      float(opts['--deadline']) if opts.get('--deadline') else None)
-        print(json.dumps(out))
+        print(json.dumps(out), file=real_stdout)
         return 0
     if argv[0] == 'replay':
+        sys.stdout = real_stdout
         return replay(argv[1])
     print(__doc__)
     return 2
